@@ -4,3 +4,9 @@ package harness
 
 // without the verif build tag /repo has no lock hook: no perturbation
 func lockDelays(seed uint64) (stop func() int) { return func() int { return 0 } }
+
+func lockDelaysWriters(seed uint64) (stop func()) { return func() {} }
+
+func parkAt(k int) (mark func(), parked chan struct{}, release func(), stop func()) {
+	return func() {}, make(chan struct{}), func() {}, func() {}
+}
